@@ -10,10 +10,13 @@ NOTE = ("Trusted: rustc's MIR construction, the fact driver's place/field-name r
         "the analysed functions); behaviour over values/histories that is not a function of code shape is explicitly not decided (see DESIGN.md).")
 
 CLAIMED = {
+    "C01": ("§4 C01", "Necessary conditions only: dedup-before-deliver cut-set in handle_data, who-may-write the receive point/tags, association set-up must not clobber a live association (known findings), serial-number-arithmetic lint over transports::sctp, SSN/fragment lock discipline. Delivery over loss/dup/reorder histories and liveness are not decided."),
     "C02": ("§4 C02", "Assume/guarantee chain over the DTLS handshake context (Connected => Finished verified => keys after verified key exchange => signature by the fingerprinted certificate => fingerprint from remote SDP), each link a cut-set/who-may rule over all CFG paths; the server-role gap is reported as a known finding."),
     "C03": ("§4 C03", "Cut-set rules: no upward effect from an unauthenticated record; only the sealed buffer is sent, only under Connected, bounded record size; every AEAD seal consumes a fresh sequence number (atomic RMW or counter advanced on every path)."),
     "C05": ("§4 C05", "Cut-set rules: replay/rollover state, Ok returns and per-SSRC table changes in the SRTP receive path are reachable only past an authentication-success edge; transport drops on unprotect error."),
     "C09": ("§4 C09", "Table agreement: (SDP type, required state, next state) triples extracted from the CFG of the four JSEP entry points equal the JSEP table; who-may-send on the signaling state; no-effect-before-failure: no feasible CFG path (SDP type and signaling state tracked as correlated predicates, infallible callees pruned by summary) from an effect to an error return. Errors that only propagate a transport start-up failure are listed as not decided."),
+    "C12": ("§4 C12", "Open announced only by the call performing Connecting->Open (or on a freshly created channel), Close only by the call performing ->Closed, Closed terminal; fragments under one queue guard with B/E flags on the first/last-fragment edges; SSN under send_lock; DCEP type table/PPIDs equal RFC 8832; FORWARD-TSN serial comparison. No-merge/no-split under loss is not decided."),
+    "C13": ("§4 C13", "Single wire exit with CRC32c over the finished packet stored little-endian at bytes 8..12; evaluated size constants and their use in batching/fragmentation; TSNs only from next_tsn.fetch_add(1) under the sent_queue lock; verification-tag argument flow with a 3-entry RFC exception table; dequeue loop bounded by a budget derived from rwnd/cwnd/flight. Window arithmetic correctness and quiescence are not decided."),
     "C14": ("§4 C14", "Negative property over every path = cut-set: every RTP/RTCP egress is cut by protect(Ok)-on-the-sent-buffer or the sender's srtp_required==false; every ingress delivery by unprotect(Ok) or srtp_required==false; who-may-call IceConn egress; srtp_required wiring at construction."),
     "C18": ("§4 C18", "Who-may-write the latch state plus cut-set rules for stickiness and legitimacy (each destination write cut separately by unlatched / expected-SSRC / not-RTCP / latching-enabled) for all packet histories; rule precedence among candidates is not decided."),
     "C20": ("§4 C20", "Ownership/lock discipline of the SPSC ring: every push under one shared producer lock, every pop under one shared consumer lock (guard-liveness dataflow), atomic ordering table, Send/Sync bounds, sender accounting, drain-before-EOS."),
